@@ -21,6 +21,12 @@ static uint8_t closer_of(uint8_t c) {
 void harness(void) {
   uint8_t s[LEN + 1];
   in_bytes(s, LEN);
+#ifdef PFX0
+  s[0] = PFX0; /* concrete-prefix cell: the first byte(s) fixed (branches on them fold), the rest symbolic */
+#endif
+#ifdef PFX1
+  s[1] = PFX1;
+#endif
   uint8_t d = in_u8();
   uint64_t m = in_range(0, LEN + 1);
   /* reference scan: top[i] = 1 iff s[i] is a top-level delimiter */
